@@ -468,6 +468,34 @@ struct SdArray : Profile {
                         for (int d = 1; d < m.rank; d++)
                             if (count[d] * stride[d] < m.dims[d])
                                 ctx.probe("nofill-partial-record");
+                    if (m.rank >= 1 && inrange && modn(o.arg(2), 5) == 1 && (!wr || m.any_write)) {
+                        // a hyperslab with an empty edge (count 0 in one dimension, strides given) holds no cells: a write of it
+                        // changes nothing, a read of it delivers nothing -- whatever the call returns
+                        int32 c0[MAXRANK], s2[MAXRANK];
+                        for (int d = 0; d < MAXRANK; d++) {
+                            c0[d] = count[d];
+                            s2[d] = std::max<int32>(stride[d], 2);
+                        }
+                        c0[modn(o.arg(3), m.rank)] = 0;
+                        std::vector<uint8_t> eb(4096, 0x5A);
+                        size_t               others = 1;
+                        for (int d = 0; d < m.rank; d++)
+                            others *= (size_t)std::max<int32>(c0[d], 1);
+                        if (others * (size_t)m.esz() <= eb.size()) {
+                            if (wr) {
+                                ctx.tr((uint64_t)SDwritedata(sel(s, di), start, s2, c0, eb.data()));
+                                read_all(s, di, "after a write of a hyperslab with an empty edge");
+                            }
+                            else {
+                                ctx.tr((uint64_t)SDreaddata(sel(s, di), start, s2, c0, eb.data()));
+                                for (uint8_t x : eb)
+                                    if (x != 0x5A)
+                                        ctx.fail("buffer-overrun", "buffer-overrun:empty-edge-read",
+                                                 strf("SDreaddata(sds%d) of a hyperslab with count 0 in dimension %d wrote into the buffer", di, modn(o.arg(3), m.rank)));
+                            }
+                            ctx.probe("empty-edge");
+                        }
+                    }
                     size_t n = 1;
                     for (int d = 0; d < m.rank; d++)
                         n *= (size_t)count[d];
